@@ -1,6 +1,6 @@
 (* Proofs/LockProofs.v -- invariants of the S3 conditional-write lock model (C19, S3 lock). *)
 From Coq Require Import ZArith NArith Lia List Bool.
-Require Import DS.Model.Lock.
+Require Import DS.Model.PyTime DS.Gen.GenLockAge DS.Model.Lock DS.Proofs.LockAgeProofs.
 Import ListNotations.
 Open Scope Z_scope.
 
@@ -10,7 +10,7 @@ Proof. unfold updN. rewrite N.eqb_refl. reflexivity. Qed.
 Lemma updN_other {A} (f : N -> A) k v x : x <> k -> updN f k v x = f x.
 Proof. unfold updN. intro H. destruct (N.eqb_spec x k); [contradiction|reflexivity]. Qed.
 
-Definition etag_pc (p : spc) (l : Z) (e : N) : Prop := p = QAge l e \/ p = QTake l e.
+Definition etag_pc (p : spc) (l : Z) (e : N) : Prop := (exists r, p = QAge l e r) \/ p = QTake l e.
 
 Section S3.
 Variable cd : bool.
@@ -34,7 +34,7 @@ Definition hinv (s : sstate) : Prop :=
             exists o, obj s = Some o /\ owner o = c /\ last_write (scl s c) <= lm o.
 
 Lemma sinv_init : sinv sinit.
-Proof. constructor; simpl; intros; try discriminate; try lia. destruct H; discriminate. Qed.
+Proof. constructor; simpl; intros; try discriminate; try lia. destruct H as [[r H]|H]; discriminate. Qed.
 
 Lemma hinv_init : hinv sinit.
 Proof. intros c H. discriminate. Qed.
@@ -103,14 +103,19 @@ Lemma sinv_log s ob : sinv s -> sinv (s_log s ob).
 Proof. intros [I1 I2 I3 I4 I5 I6 I7]. constructor; simpl; auto. Qed.
 
 Lemma sinv_tick s d ob : sinv s ->
-  sinv (s_log {| obj := obj s; next_etag := next_etag s; snow := snow s + Z.max 0 d; scl := scl s;
-                 late_delete := late_delete s; strace := strace s |} ob).
+  sinv (s_log {| obj := obj s; next_etag := next_etag s; snow := snow s + Z.max 0 d; zone := zone s;
+                 lmrep := lmrep s; scl := scl s; late_delete := late_delete s; strace := strace s |} ob).
 Proof.
   intros [I1 I2 I3 I4 I5 I6 I7]. constructor; simpl; auto.
   - intros o E. apply I1 in E. lia.
   - intros c l e E. apply I5 in E. lia.
   - intros c. specialize (I7 c). lia.
 Qed.
+
+Lemma sinv_env s z r ob : sinv s ->
+  sinv (s_log {| obj := obj s; next_etag := next_etag s; snow := snow s; zone := z; lmrep := r;
+                 scl := scl s; late_delete := late_delete s; strace := strace s |} ob).
+Proof. intros [I1 I2 I3 I4 I5 I6 I7]. constructor; simpl; auto. Qed.
 
 (* ---- hinv preservation lemmas ---- *)
 Lemma hinv_keep s c x' t ld ob r :
@@ -175,7 +180,7 @@ Qed.
 
 Ltac side :=
   simpl; try (left; reflexivity); try reflexivity; try lia; auto;
-  try (intros ? ? [?H|?H]; discriminate); try (intros; discriminate).
+  try (intros ? ? [[? ?H]|?H]; discriminate); try (intros; discriminate).
 
 Ltac keep I := unfold s_cl; apply sinv_keep; [exact I | side ..].
 Ltac write I := apply sinv_write; [exact I | side ..].
@@ -188,21 +193,22 @@ Ltac break_match :=
 
 Lemma step_sinv s ev : sinv s -> sinv (sstep cd lease rsleep s ev).
 Proof.
-  intro I. destruct ev as [c k|c f j|c f|d|c]; simpl.
+  intro I. destruct ev as [c k|c f j|c f|d|c|z r]; simpl.
   - (* SCall *)
     repeat break_match; try (apply sinv_log; exact I); try (keep I).
   - (* SStep *)
     destruct (s_alive (scl s c)); [|apply sinv_log; exact I].
-    destruct (s_pc (scl s c)) as [| | | |l e|l e| |u|second|u| |] eqn:P.
+    destruct (s_pc (scl s c)) as [| | | |l e r|l e| |u|second|u| |] eqn:P.
     + apply sinv_log; exact I.
     + keep I.
     + (* QCreate *) destruct f; repeat break_match; try (keep I); try (write I).
     + (* QHead *) destruct f; repeat break_match; try (keep I).
-      intros l0 e0 [H|H]; inversion H; subst. right. eauto.
-    + (* QAge *) break_match.
+      intros l0 e0 [[r0 H]|H]; inversion H; subst. right. eauto.
+    + (* QAge *) rewrite takeover_age_render. destruct r as [off|]; [|keep I].
+      rewrite takeover_keeps_spec. break_match.
       * keep I.
       * keep I.
-        -- intros l0 e0 [H|H]; inversion H; subst. left. left. exact P.
+        -- intros l0 e0 [[r0 H]|H]; inversion H; subst. left. left. eexists. exact P.
         -- intros l0 e0 H; inversion H; subst. right. apply Z.leb_gt in Heqb. lia.
     + (* QTake *) destruct f; repeat break_match; try (keep I); try (write I).
     + (* QTimeChk *) break_match; keep I.
@@ -220,17 +226,23 @@ Proof.
        congruence).
   - (* STick *) apply sinv_tick. exact I.
   - (* SDie *) keep I. apply (E_rel s I c).
+  - (* SEnv *) apply sinv_env. exact I.
 Qed.
 
 
 Lemma hinv_tick s d ob : hinv s ->
-  hinv (s_log {| obj := obj s; next_etag := next_etag s; snow := snow s + Z.max 0 d; scl := scl s;
-                 late_delete := late_delete s; strace := strace s |} ob).
+  hinv (s_log {| obj := obj s; next_etag := next_etag s; snow := snow s + Z.max 0 d; zone := zone s;
+                 lmrep := lmrep s; scl := scl s; late_delete := late_delete s; strace := strace s |} ob).
 Proof. intros H c. simpl. intros L W. apply H; auto. lia. Qed.
+
+Lemma hinv_env s z r ob : hinv s ->
+  hinv (s_log {| obj := obj s; next_etag := next_etag s; snow := snow s; zone := z; lmrep := r;
+                 scl := scl s; late_delete := late_delete s; strace := strace s |} ob).
+Proof. intros H c. simpl. apply H. Qed.
 
 Lemma late_sticky s ev : late_delete (sstep cd lease rsleep s ev) = false -> late_delete s = false.
 Proof.
-  destruct ev as [c k|c f j|c f|d|c]; simpl; repeat break_match; simpl; auto.
+  destruct ev as [c k|c f j|c f|d|c|z r]; simpl; repeat break_match; simpl; auto.
   all: intro H; apply orb_false_iff in H; tauto.
 Qed.
 
@@ -239,12 +251,12 @@ Ltac hkeep H := unfold s_cl; apply hinv_keep; [exact H | side ..].
 Lemma step_hinv s ev : sinv s -> hinv s -> (cd = false -> late_delete (sstep cd lease rsleep s ev) = false) ->
   hinv (sstep cd lease rsleep s ev).
 Proof.
-  intros I H. destruct ev as [c k|c f j|c f|d|c]; simpl.
+  intros I H. destruct ev as [c k|c f j|c f|d|c|z r]; simpl.
   - (* SCall *)
     repeat break_match; intros _; try (apply hinv_log; exact H); try (hkeep H).
   - (* SStep *)
     destruct (s_alive (scl s c)); [|intros _; apply hinv_log; exact H].
-    destruct (s_pc (scl s c)) as [| | | |l e|l e| |u|second|u| |] eqn:P.
+    destruct (s_pc (scl s c)) as [| | | |l e r|l e| |u|second|u| |] eqn:P.
     + intros _; apply hinv_log; exact H.
     + intros _; hkeep H.
     + (* QCreate *)
@@ -254,7 +266,8 @@ Proof.
       destruct f; repeat break_match; intros _; try (hkeep H);
         (apply hinv_write; [exact H|exact I|apply Hno; first [assumption|reflexivity]|side]).
     + (* QHead *) destruct f; repeat break_match; intros _; hkeep H.
-    + (* QAge *) break_match; intros _; hkeep H.
+    + (* QAge *) rewrite takeover_age_render. destruct r as [off|]; [|intros _; hkeep H].
+      break_match; intros _; hkeep H.
     + (* QTake *)
       assert (Hno : etag_matches s e = true -> forall c0, c0 <> c -> is_locked (scl s c0) = true ->
                                     snow s - last_write (scl s c0) <= lease -> False).
@@ -291,6 +304,7 @@ Proof.
       (apply hinv_write; [exact H|exact I|apply Hno; first [assumption|reflexivity]|side]).
   - (* STick *) intros _. apply hinv_tick. exact H.
   - (* SDie *) intros _. hkeep H.
+  - (* SEnv *) intros _. apply hinv_env. exact H.
 Qed.
 
 Lemma run_inv evs : forall s, sinv s -> ((cd = false -> late_delete s = false) -> hinv s) ->
@@ -325,13 +339,13 @@ Lemma step_obj s ev : sinv s ->
   \/ exists c, obj (sstep cd lease rsleep s ev) = Some (fresh_obj s c)
                /\ (obj s = None \/ exists o, obj s = Some o /\ (owner o = c \/ snow s - lm o > lease)).
 Proof.
-  intro I. destruct ev as [c k|c f j|c f|d|c]; simpl.
+  intro I. destruct ev as [c k|c f j|c f|d|c|z r]; simpl.
   - repeat break_match; simpl; auto.
   - destruct (s_alive (scl s c)); [|simpl; auto].
-    destruct (s_pc (scl s c)) as [| | | |l e|l e| |u|second|u| |] eqn:P; simpl; auto.
+    destruct (s_pc (scl s c)) as [| | | |l e r|l e| |u|second|u| |] eqn:P; simpl; auto.
     + destruct f; repeat break_match; simpl; auto; right; right; exists c; auto.
     + destruct f; repeat break_match; simpl; auto.
-    + break_match; simpl; auto.
+    + repeat break_match; simpl; auto.
     + assert (Hm : etag_matches s e = true -> exists o, obj s = Some o /\ (owner o = c \/ snow s - lm o > lease)).
       { intro Em. destruct (etag_matches_spec s e Em) as [o [Eo Ee]]. exists o. split; auto. right.
         destruct (E_pc s I c l e (or_intror P)) as [_ B]. rewrite (B o Eo Ee). apply (E_take s I c l e P). }
@@ -346,6 +360,7 @@ Proof.
     { intro Em. destruct (etag_matches_spec s e Em) as [o [Eo Ee]]. exists o. split; auto. left.
       apply (E_own s I c e o M Eo Ee). }
     destruct f; repeat break_match; simpl; auto; right; right; exists c; auto.
+  - auto.
   - auto.
   - auto.
 Qed.
@@ -376,7 +391,7 @@ Proof.
   intros s ev c Hn Hr.
   assert (Hcl : forall c0 x ob r o ne t ld, c0 <> c -> s_res (scl (s_set s o ne t c0 x ld ob r) c) = STrue -> False).
   { intros. simpl in *. rewrite updN_other in * by auto. contradiction. }
-  destruct ev as [c0 k|c0 f j|c0 f|d|c0]; simpl in Hr.
+  destruct ev as [c0 k|c0 f j|c0 f|d|c0|z r]; simpl in Hr.
   - destruct (N.eq_dec c0 c) as [->|Hne];
       repeat match type of Hr with
              | context [match ?x with _ => _ end] => destruct x eqn:?
@@ -384,7 +399,7 @@ Proof.
              end; simpl in Hr; rewrite ?updN_same, ?updN_other in Hr by auto; simpl in Hr; try contradiction; try discriminate.
   - destruct (N.eq_dec c0 c) as [->|Hne].
     + destruct (s_alive (scl s c)); [|simpl in Hr; contradiction].
-      destruct (s_pc (scl s c)) as [| | | |l e|l e| |u|second|u| |] eqn:P;
+      destruct (s_pc (scl s c)) as [| | | |l e r|l e| |u|second|u| |] eqn:P;
         try (repeat match type of Hr with
              | context [match ?x with _ => _ end] => destruct x eqn:?
              | context [if ?b then _ else _] => destruct b eqn:?
@@ -404,11 +419,12 @@ Proof.
              end; simpl in Hr; rewrite ?updN_same, ?updN_other in Hr by auto; simpl in Hr; try contradiction; try discriminate.
   - contradiction.
   - destruct (N.eq_dec c0 c) as [->|Hne]; rewrite ?updN_same, ?updN_other in Hr by auto; simpl in Hr; contradiction.
+  - contradiction.
 Qed.
 
 (* ---- C19_s3_superseded ---- *)
 Definition in_acquire (p : spc) : bool :=
-  match p with QStart | QCreate | QHead | QAge _ _ | QTake _ _ | QTimeChk | QSleep _ => true | _ => false end.
+  match p with QStart | QCreate | QHead | QAge _ _ _ | QTake _ _ | QTimeChk | QSleep _ => true | _ => false end.
 
 Definition is_acquire_of (a : N) (ev : sevent) : bool :=
   match ev with SCall c (CAcquire _) => N.eqb c a | _ => false end.
@@ -429,7 +445,7 @@ Lemma foreign_step s ev a : sinv s -> foreign s a -> is_acquire_of a ev = false 
 Proof.
   intros I [F P] Hev.
   assert (Hpc : in_acquire (s_pc (scl (sstep cd lease rsleep s ev) a)) = false).
-  { destruct ev as [c k|c f j|c f|d|c]; simpl in *.
+  { destruct ev as [c k|c f j|c f|d|c|z r]; simpl in *.
     - destruct (N.eq_dec c a) as [->|Hne];
         repeat break_match; simpl; rewrite ?updN_same, ?updN_other by auto; simpl; auto;
         try (rewrite N.eqb_refl in Hev; discriminate); congruence.
@@ -441,7 +457,8 @@ Proof.
     - destruct (N.eq_dec c a) as [->|Hne];
         repeat break_match; simpl; rewrite ?updN_same, ?updN_other by auto; simpl; auto.
     - auto.
-    - destruct (N.eq_dec c a) as [->|Hne]; rewrite ?updN_same, ?updN_other by auto; simpl; auto. }
+    - destruct (N.eq_dec c a) as [->|Hne]; rewrite ?updN_same, ?updN_other by auto; simpl; auto.
+    - auto. }
   split; [|exact Hpc].
   intros o' Eo'. destruct (step_obj s ev I) as [Hs|[Hn|[c [Hc Hprev]]]].
   - apply F. congruence.
@@ -449,7 +466,7 @@ Proof.
   - rewrite Hc in Eo'. inversion Eo'; subst o'; simpl. intro Hca; subst c.
     (* a itself wrote: impossible outside acquire() while the object is foreign *)
     clear Hprev Eo'.
-    destruct ev as [c k|c f j|c f|d|c]; simpl in Hc.
+    destruct ev as [c k|c f j|c f|d|c|z r]; simpl in Hc.
     + break_in Hc; fin F Hc.
     + destruct (N.eq_dec c a) as [->|Hne].
       * destruct (s_alive (scl s a)); [|fin F Hc].
@@ -463,6 +480,7 @@ Proof.
           exfalso. apply (F o Eo). apply (E_own s I a e o M Eo Ee). }
         rewrite Hm in Hc. destruct f; fin F Hc.
       * break_in Hc; fin F Hc.
+    + fin F Hc.
     + fin F Hc.
     + fin F Hc.
 Qed.
@@ -525,7 +543,7 @@ Ltac tfin T1 T2 :=
 Lemma stinv_step s ev c : stinv s c -> stinv (sstep cd lease rsleep s ev) c.
 Proof.
   intros [T1 T2].
-  destruct ev as [c0 k|c0 f j|c0 f|d|c0]; simpl.
+  destruct ev as [c0 k|c0 f j|c0 f|d|c0|z r]; simpl.
   - destruct (N.eq_dec c0 c) as [->|Hne].
     + destruct (s_alive (scl s c)); [|tfin T1 T2].
       destruct (s_pc (scl s c)) eqn:P;
@@ -533,12 +551,12 @@ Proof.
     + repeat break_match; tfin T1 T2.
   - destruct (N.eq_dec c0 c) as [->|Hne].
     + destruct (s_alive (scl s c)); [|tfin T1 T2].
-      destruct (s_pc (scl s c)) as [| | | |l e|l e| |u|second|u| |] eqn:P.
+      destruct (s_pc (scl s c)) as [| | | |l e r|l e| |u|second|u| |] eqn:P.
       * tfin T1 T2.
       * tfin T1 T2.
       * destruct f; repeat break_match; tfin T1 T2.
       * destruct f; repeat break_match; tfin T1 T2.
-      * break_match; tfin T1 T2.
+      * repeat break_match; tfin T1 T2.
       * destruct f; repeat break_match; tfin T1 T2.
       * (* QTimeChk *)
         assert (T1' := T1 eq_refl ltac:(discriminate)).
@@ -555,6 +573,7 @@ Proof.
   - destruct (N.eq_dec c0 c) as [->|Hne]; repeat break_match; tfin T1 T2.
   - tfin T1 T2.
   - destruct (N.eq_dec c0 c) as [->|Hne]; tfin T1 T2.
+  - tfin T1 T2.
 Qed.
 
 Lemma stinv_run evs : forall s c, stinv s c -> stinv (srun cd lease rsleep s evs) c.
@@ -581,7 +600,7 @@ Theorem s3_ok_only_when_unowned : forall evs ev c,
 Proof.
   intros evs ev c s Hn Hr.
   destruct (run_inv evs sinit sinv_init (fun _ => hinv_init)) as [I _]. fold s in I. clearbody s.
-  destruct ev as [c0 k|c0 f j|c0 f|d|c0]; simpl in *.
+  destruct ev as [c0 k|c0 f j|c0 f|d|c0|z r]; simpl in *.
   - destruct (N.eq_dec c0 c) as [->|Hne];
       repeat match type of Hr with
              | context [match ?x with _ => _ end] => destruct x eqn:?
@@ -589,7 +608,7 @@ Proof.
              end; simpl in Hr; rewrite ?updN_same, ?updN_other in Hr by auto; simpl in Hr; try contradiction; try discriminate.
   - destruct (N.eq_dec c0 c) as [->|Hne].
     + destruct (s_alive (scl s c)); [|simpl in Hr; contradiction].
-      destruct (s_pc (scl s c)) as [| | | |l e|l e| |u|second|u| |] eqn:P;
+      destruct (s_pc (scl s c)) as [| | | |l e r|l e| |u|second|u| |] eqn:P;
         try (repeat match type of Hr with
              | context [match ?x with _ => _ end] => destruct x eqn:?
              | context [if ?b then _ else _] => destruct b eqn:?
@@ -613,6 +632,26 @@ Proof.
              end; simpl in Hr; rewrite ?updN_same, ?updN_other in Hr by auto; simpl in Hr; try contradiction; try discriminate.
   - contradiction.
   - destruct (N.eq_dec c0 c) as [->|Hne]; rewrite ?updN_same, ?updN_other in Hr by auto; simpl in Hr; contradiction.
+  - contradiction.
+Qed.
+
+(* ---- the age test of _try_takeover_expired in ANY environment: whatever the process zone and whatever
+   utcoffset the reply's LastModified is written in, an aware LastModified is judged by the difference
+   of the two instants; a naive one makes the call raise, with no request sent and no belief changed ---- *)
+Theorem s3_age_test : forall s c f j l e r,
+  s_alive (scl s c) = true -> s_pc (scl s c) = QAge l e r ->
+  let s' := sstep cd lease rsleep s (SStep c f j) in
+  obj s' = obj s /\ snow s' = snow s /\ is_locked (scl s' c) = is_locked (scl s c)
+  /\ match r with
+     | Some _ => s_pc (scl s' c) = (if snow s - l <=? lease then QTimeChk else QTake l e)
+                 /\ s_res (scl s' c) = s_res (scl s c)
+     | None => s_pc (scl s' c) = QIdle /\ s_res (scl s' c) = SRaised
+     end.
+Proof.
+  intros s c f j l e r A P. simpl. rewrite A, P, takeover_age_render.
+  destruct r as [off|]; simpl.
+  - rewrite takeover_keeps_spec. destruct (snow s - l <=? lease); simpl; rewrite updN_same; simpl; auto.
+  - rewrite updN_same; simpl; auto.
 Qed.
 
 End S3.
